@@ -2553,6 +2553,10 @@ return 1;""",
         output.extend(["#ifndef %s" % guard, "#define %s" % guard])
 
         output.append("")
+        # Required for '#' formats (s#) since Python 3.10.
+        output.append("#ifndef PY_SSIZE_T_CLEAN")
+        output.append("#define PY_SSIZE_T_CLEAN")
+        output.append("#endif")
         output.append("#include <Python.h>")
         self.header_type_include.write_headers(output)
 
